@@ -212,7 +212,15 @@ class LibLoops:
                         else:
                             nxt.append((s3, oc3))
             states = nxt
-        return [(s, NORMAL if oc[0] == "broke" else oc) for s, oc in states]
+        out = []
+        for s, oc in states:
+            if oc[0] == "broke":
+                out.append((s, NORMAL))
+            elif oc[0] == "normal" and getattr(node, "orelse", None):
+                out.extend(e.exec_block(node.orelse, s))
+            else:
+                out.append((s, oc))
+        return out
 
     # ================================================================== with
     def with_statement(self, item, node, st: State):
@@ -333,6 +341,42 @@ class LibLoops:
                     out.append((s2, R))
         return out
 
+    def max_min_gen(self, name, gen, call, st):
+        """max(e(x) for x in L) over integers: ValueError if L is empty; the result is attained and bounds every e(x)"""
+        e = self.e
+        g = gen.generators[0]
+        out = []
+        self.use("builtin max/min over a generator of integers: ValueError if empty; the result is attained by some element and bounds all of them")
+        for s, itv in e.ev(g.iter, st):
+            if isinstance(itv, Exc):
+                out.append((s, itv))
+                continue
+            for s2, L in (self.to_list(itv, s, call) if itv.t[0] != "list" else [(s, itv)]):
+                def elt_at(idx_term, base):
+                    s3 = base.fork()
+                    for s4, oc in e.assign_lvalue(g.target, Val(L.t[1], z3.Select(e.list_at(L), idx_term)), s3):
+                        pass
+                    return e.sv(gen.elt, s3)
+                n = e.list_len(L)
+                for s5, empty in e.split(s2, n <= 0):
+                    if empty:
+                        out.append((s5, Exc("ValueError", f"{name}() arg is an empty sequence", call.lineno)))
+                        continue
+                    j = z3.Int(fresh_name("j"))
+                    i = z3.Int(fresh_name("i"))
+                    ej = elt_at(j, s5)
+                    if ej.t[0] not in ("int", "bool"):
+                        raise Unsupported(f"{name} over non-integer generator elements", call, e.path)
+                    r = e.fresh(INT, name)
+                    r.choices = ej.choices
+                    s5.assume(z3.And(0 <= j, j < n, e.coerce(ej, INT).z == r.z))
+                    ei = e.coerce(elt_at(i, s5), INT).z
+                    s5.assume(z3.ForAll([i], z3.Implies(z3.And(0 <= i, i < n), ei <= r.z if name == "max" else ei >= r.z)))
+                    if r.choices:
+                        s5.assume(z3.Or(*[r.z == c for c in r.choices]))
+                    out.append((s5, r))
+        return out
+
     def filtered_comprehension(self, node, st, kind):
         """[x for x in L if cond(x)] with the identity as element expression: a list holding exactly the
         elements of L that satisfy cond (order and multiplicities are abstracted: membership only)"""
@@ -372,6 +416,8 @@ class LibLoops:
         """any(...) / all(...) over a generator expression"""
         e = self.e
         gen = call.args[0]
+        if name in ("max", "min") and len(gen.generators) == 1 and not gen.generators[0].ifs and len(call.args) == 1:
+            return self.max_min_gen(name, gen, call, st)
         if name not in ("any", "all") or len(gen.generators) != 1 or gen.generators[0].ifs:
             raise Unsupported(f"{name} over a generator expression", call, e.path)
         g = gen.generators[0]
